@@ -262,6 +262,7 @@ func checkC05(p *Prog, r *Report) {
 
 	// ---- DAEMON-PATHS ----
 	checkDaemonPaths(p, r, rc)
+	checkCleanNames(p, r, g)
 
 	r.Trust("os.Root confines every path operation to the opened directory (Go standard library); kernel semantics of mknodat/mkfifoat/bind with a base name")
 	r.Assume("linux configurations only; darwin/windows variants of createDevice/symlink/newPendingFile use path joins and are not analysed")
@@ -386,4 +387,181 @@ func checkDaemonPaths(p *Prog, r *Report, rc *rootedChecker) {
 		r.Cond(ok, rule, funcKey(sf)+" store Module.Path (peer path)", p.Pos(st.Pos()), "a module path taken from the peer is allowed only for the implicit module (module == nil, command mode)")
 	}
 	_ = fmt.Sprint
+}
+
+// ---- C05/CLEAN-NAMES ----
+
+type cleanChecker struct {
+	p    *Prog
+	g    *ModGraph
+	memo map[ssa.Value]int
+}
+
+func (cc *cleanChecker) ok(v ssa.Value) bool {
+	switch cc.memo[v] {
+	case 1, 2:
+		return true
+	case 3:
+		return false
+	}
+	cc.memo[v] = 1
+	res := cc.compute(v)
+	if res {
+		cc.memo[v] = 2
+	} else {
+		cc.memo[v] = 3
+	}
+	return res
+}
+
+func (cc *cleanChecker) compute(v ssa.Value) bool {
+	if _, isC := constStr(v); isC {
+		return true
+	}
+	switch x := v.(type) {
+	case *ssa.Call:
+		switch calleeName(x) {
+		case "path/filepath.Clean", "path/filepath.Base", "path/filepath.Dir", "path/filepath.Join", "path.Clean", "path.Join", "path.Base", "path.Dir":
+			return true
+		}
+		return false
+	case *ssa.Phi:
+		for _, e := range x.Edges {
+			if !cc.ok(e) {
+				return false
+			}
+		}
+		return len(x.Edges) > 0
+	case *ssa.Parameter:
+		fn := x.Parent()
+		if isWalkDirFunc(fn) {
+			if pp, _ := walkParams(fn); pp == x {
+				return true // fs.WalkDir yields clean, root-relative paths
+			}
+		}
+		idx := -1
+		for i, pp := range fn.Params {
+			if pp == x {
+				idx = i
+			}
+		}
+		n := 0
+		for _, e := range cc.g.In[fn] {
+			if isTestSupport(pkgPathOfFunc(e.From)) {
+				continue
+			}
+			if _, boxing := e.Site.(*ssa.MakeInterface); boxing && e.Escape {
+				continue // the method becomes callable here; its arguments come from the invoke sites
+			}
+			c, isCall := e.Site.(ssa.CallInstruction)
+			if !isCall || e.Escape {
+				return false
+			}
+			if c.Common().IsInvoke() {
+				// interface method (FileSource.Open etc.): receiver is not in Args
+				if idx-1 < 0 || idx-1 >= len(c.Common().Args) || !cc.ok(c.Common().Args[idx-1]) {
+					return false
+				}
+				n++
+				continue
+			}
+			if c.Common().StaticCallee() != fn || idx >= len(c.Common().Args) || !cc.ok(c.Common().Args[idx]) {
+				return false
+			}
+			n++
+		}
+		return n > 0
+	case *ssa.UnOp:
+		if x.Op != token.MUL {
+			return false
+		}
+		// load of a struct field: every production store to that field must be clean
+		if _, f := loadedField(x); f != nil && f.Pkg() != nil && isModPath(f.Pkg().Path()) {
+			n := 0
+			for _, st := range storesToField(cc.p, f) {
+				if isTestSupport(pkgPathOfFunc(st.Parent())) {
+					continue
+				}
+				n++
+				if !cc.ok(st.Val) {
+					return false
+				}
+			}
+			return n > 0
+		}
+		// local slot / captured variable
+		if u := unwrapLocal(x); u != ssa.Value(x) {
+			return cc.ok(u)
+		}
+		if fv, ok := x.X.(*ssa.FreeVar); ok {
+			fn := fv.Parent()
+			for i, f2 := range fn.FreeVars {
+				if f2 != fv || fn.Parent() == nil {
+					continue
+				}
+				for _, b := range fn.Parent().Blocks {
+					for _, in := range b.Instrs {
+						if mc, ok := in.(*ssa.MakeClosure); ok && mc.Fn == ssa.Value(fn) {
+							if a, ok := mc.Bindings[i].(*ssa.Alloc); ok {
+								all, n := true, 0
+								for _, ref := range *a.Referrers() {
+									if st, ok := ref.(*ssa.Store); ok && st.Addr == ssa.Value(a) {
+										n++
+										if !cc.ok(st.Val) {
+											all = false
+										}
+									}
+								}
+								return all && n > 0
+							}
+						}
+					}
+				}
+			}
+		}
+	}
+	return false
+}
+
+func checkCleanNames(p *Prog, r *Report, g *ModGraph) {
+	rule := "C05/CLEAN-NAMES"
+	r.Rule(rule, "every path name handed to an *os.Root method (and to RootChecksum, renameio.NewPendingFile/SymlinkRoot) in packages receiver, rsyncd, rsyncchecksum and sender is lexically clean by provenance: a constant, a filepath.Clean/Base/Dir/Join result, a WalkDir callback path, or a field/parameter only ever bound to such values — os.Root (up to Go 1.25) follows a symlink out of the root when the name carries a trailing slash", 15)
+	cc := &cleanChecker{p: p, g: g, memo: map[ssa.Value]int{}}
+	for _, pk := range []string{pkgReceiver, pkgRsyncd, pkgChecksum, pkgSender} {
+		for _, fn := range p.FuncsInPkg(pk) {
+			allCalls(fn, func(c ssa.CallInstruction) {
+				f := calleeOf(c)
+				if f == nil || c.Common().IsInvoke() {
+					return
+				}
+				rp, rtn := recvTypeName(f)
+				var names []ssa.Value
+				a := c.Common().Args
+				switch {
+				case rp == "os" && rtn == "Root":
+					switch f.Name() {
+					case "Open", "OpenFile", "OpenRoot", "Create", "Mkdir", "MkdirAll", "Remove", "RemoveAll", "Lstat", "Stat", "Readlink", "Chmod", "Chown", "Lchown", "Chtimes", "ReadFile", "WriteFile":
+						names = append(names, a[1])
+					case "Symlink":
+						names = append(names, a[2])
+					case "Rename", "Link":
+						names = append(names, a[1], a[2])
+					default:
+						return
+					}
+				case f.FullName() == pkgChecksum+".RootChecksum":
+					names = append(names, a[1])
+				case f.FullName() == pkgRenameio+".NewPendingFile":
+					names = append(names, a[0])
+				case f.FullName() == pkgRenameio+".SymlinkRoot":
+					names = append(names, a[2])
+				default:
+					return
+				}
+				for _, nm := range names {
+					r.Cond(cc.ok(nm), rule, funcKey(fn)+" → "+shortKey(f.FullName())+"(name)", p.Pos(instrPos(c)), "the name is not provably lexically clean (peer text with a trailing slash or dot segments can reach os.Root)")
+				}
+			})
+		}
+	}
 }
